@@ -69,6 +69,35 @@ type Importer struct {
 	Hook  func(path string)
 }
 
+// SharedGC is one gc importer (and file set) shared by several builds of a process, the
+// way a long-running client shares its importer between packages.
+type SharedGC struct {
+	Fset *token.FileSet
+	GC   types.Importer
+}
+
+func (e Exports) NewSharedGC() *SharedGC {
+	fset := token.NewFileSet()
+	lookup := func(path string) (io.ReadCloser, error) {
+		f, ok := e[path]
+		if !ok {
+			return nil, fmt.Errorf("no export data for %q", path)
+		}
+		return os.Open(f)
+	}
+	return &SharedGC{Fset: fset, GC: importer.ForCompiler(fset, "gc", lookup)}
+}
+
+// NewImporterShared is NewImporter over a shared gc importer: standard packages are the
+// same objects in every build that uses it; synthetic packages stay per build.
+func (e Exports) NewImporterShared(sh *SharedGC, syn []*Synthetic) *Importer {
+	im := &Importer{fset: sh.Fset, gc: sh.GC, syn: map[string]*Synthetic{}, done: map[string]*types.Package{}, Fail: map[string]bool{}}
+	for _, s := range syn {
+		im.syn[s.Path] = s
+	}
+	return im
+}
+
 func (e Exports) NewImporter(fset *token.FileSet, syn []*Synthetic) *Importer {
 	lookup := func(path string) (io.ReadCloser, error) {
 		f, ok := e[path]
